@@ -1,2 +1,224 @@
-(* C02 - proofs. *)
-From TT Require Import Lib.Base Gen.Handlers Model.Run Spec.Run Spec.C02 Corr.C02.
+(* C02 - proofs: the execution log is the declared order, every registered cleanup runs exactly
+   once, nothing is left, patched attributes are restored, a second run repeats the first. *)
+From Coq Require Import Permutation.
+From TT Require Import Lib.Base Gen.Handlers Model.Run Spec.Run Spec.C02 Corr.C02 Proof.RunCore.
+
+(* ---------- comparisons ---------- *)
+Lemma lev_eqb_spec a b : lev_eqb a b = true <-> a = b.
+Proof.
+  destruct a, b; simpl; split; intro H; try discriminate; try reflexivity.
+  - apply Nat.eqb_eq in H; congruence.
+  - injection H as ->; apply Nat.eqb_refl.
+  - apply andb_true_iff in H as [H1 H2]. apply Nat.eqb_eq in H1, H2. congruence.
+  - injection H as -> ->. now rewrite !Nat.eqb_refl.
+  - apply Nat.eqb_eq in H; congruence.
+  - injection H as ->; apply Nat.eqb_refl.
+Qed.
+Lemma lsh_eqb_spec a b : lsh_eqb a b = true <-> a = b.
+Proof.
+  destruct a, b; simpl; split; intro H; try discriminate;
+    try (apply Nat.eqb_eq in H; congruence); injection H as ->; apply Nat.eqb_refl.
+Qed.
+Lemma nn_eqb_spec a b : nn_eqb a b = true <-> a = b.
+Proof. apply pair_eqb_spec; intros; apply Nat.eqb_eq. Qed.
+
+Lemma runobs_eqb_spec a b : runobs_eqb a b = true <-> a = b.
+Proof.
+  destruct a as [l1 k1 a1 o1], b as [l2 k2 a2 o2]; unfold runobs_eqb; simpl. rewrite !andb_true_iff.
+  rewrite (list_eqb_spec lev_eqb lev_eqb_spec), Nat.eqb_eq, (list_eqb_spec nn_eqb nn_eqb_spec),
+    (list_eqb_spec outcome_eqb outcome_eqb_spec).
+  split; [intros [[[-> ->] ->] ->]; reflexivity | intros H; injection H; auto].
+Qed.
+Lemma obs_eqb_spec a b : obs_eqb a b = true <-> a = b.
+Proof.
+  destruct a as [f1 s1], b as [f2 s2]; unfold obs_eqb; simpl. rewrite andb_true_iff, !runobs_eqb_spec.
+  split; [intros [-> ->]; reflexivity | intros H; injection H; auto].
+Qed.
+
+Lemma same_attrs_refl a : same_attrs a a = true.
+Proof. unfold same_attrs. apply forallb_forall. intros k _. apply option_eqb_spec; [apply Nat.eqb_eq | reflexivity]. Qed.
+
+Lemma same_attrs_sound a b : same_attrs a b = true -> forall k, aget k a = aget k b.
+Proof.
+  unfold same_attrs. rewrite forallb_forall. intros H k.
+  destruct (in_dec Nat.eq_dec k (map fst a ++ map fst b)) as [I|N].
+  - specialize (H k I). apply (option_eqb_spec Nat.eqb Nat.eqb_eq) in H. exact H.
+  - assert (G : forall l, ~ In k (map fst l) -> aget k l = None).
+    { induction l as [|[j v] r IH]; simpl; [reflexivity|]. intros Hn.
+      destruct (Nat.eqb k j) eqn:E; [apply Nat.eqb_eq in E; subst; tauto | apply IH; tauto]. }
+    rewrite (G a), (G b); [reflexivity | |]; intro; apply N; apply in_or_app; tauto.
+Qed.
+
+(* ---------- one run of the instance ---------- *)
+Lemma outs_of_calls t : outs_of t = outs_of (calls t).
+Proof. induction t as [|e r IH]; simpl; [reflexivity|]. destruct e; simpl; rewrite ?IH; reflexivity. Qed.
+
+(* which outcome a run started with force_failure = f0 reports *)
+Definition outs_for (p : prog) (f0 : bool) : list outcome :=
+  match fst (verdict p f0) with Some o => [o] | None => [] end.
+
+Lemma observe_spec p s0 :
+  exists r s,
+    observe p s0 = (r, s)
+    /\ map shape (r_log r) = expected_log p
+    /\ r_left r = 0
+    /\ r_attrs r = attrs s0
+    /\ r_outs r = outs_for p (force s0)
+    /\ attrs s = attrs s0 /\ stack s = []
+    /\ force s = force s0 || (negb (skipped p) && forced p).
+Proof.
+  unfold observe. destruct (run_from_spec p (set_tr [] (set_log [] s0))) as (s & d & R & L & X & F & K & A & C).
+  rewrite R. eexists. exists s. split; [reflexivity|]. cbn [r_log r_left r_attrs r_outs].
+  cbn [log tr force attrs set_tr set_log calls filter app map] in *.
+  split; [exact L|]. split; [rewrite K; reflexivity|]. split; [exact A|].
+  split; [|split; [exact A | split; [exact K | exact F]]].
+  rewrite outs_of_calls, C. unfold outs_for. destruct (fst (verdict p (force s0))); reflexivity.
+Qed.
+
+(* a failure forced in the first run is forced again by the second: the verdict is the same *)
+Lemma verdict_rerun p : verdict p (negb (skipped p) && forced p) = verdict p false.
+Proof.
+  unfold verdict. destruct (skipped p); [reflexivity|]. cbn [negb andb]. unfold collected.
+  cbn [orb]. now rewrite orb_diag.
+Qed.
+
+Theorem model_meets_spec i : wf i = true -> spec_okb i (model i) = true.
+Proof.
+  intros _. unfold model.
+  destruct (observe_spec (i_prog i) (init (i_attrs i))) as (r1 & s1 & O1 & L1 & K1 & A1 & U1 & A1' & St1 & F1).
+  rewrite O1.
+  destruct (observe_spec (i_prog i) s1) as (r2 & s2 & O2 & L2 & K2 & A2 & U2 & A2' & St2 & F2).
+  rewrite O2. unfold spec_okb, run_okb. cbn [o_first o_second].
+  cbn [attrs force init] in *. rewrite A1' in A2.
+  rewrite L1, L2, K1, K2, A1, A2, U1, U2, F1. cbn [orb].
+  rewrite !(proj2 (list_eqb_spec lsh_eqb lsh_eqb_spec _ _) eq_refl), same_attrs_refl. cbn [Nat.eqb andb].
+  apply (list_eqb_spec outcome_eqb outcome_eqb_spec). unfold outs_for. now rewrite verdict_rerun.
+Qed.
+
+Theorem spec_okb_sound i o : spec_okb i o = true -> Spec i o.
+Proof.
+  unfold spec_okb, Spec. intros H. apply andb_true_iff in H as [H H4]. apply andb_true_iff in H as [H H3].
+  apply andb_true_iff in H as [H1 H2].
+  assert (R : forall r, run_okb i r = true -> Run_spec i r).
+  { intros r Hr. unfold run_okb in Hr. apply andb_true_iff in Hr as [Hr C]. apply andb_true_iff in Hr as [A B].
+    split; [exact (proj1 (list_eqb_spec lsh_eqb lsh_eqb_spec _ _) A)|].
+    split; [now apply Nat.eqb_eq in B | exact (same_attrs_sound _ _ C)]. }
+  split; [exact (R _ H1)|]. split; [exact (R _ H2)|].
+  split; [exact (proj1 (list_eqb_spec lsh_eqb lsh_eqb_spec _ _) H3)
+         | exact (proj1 (list_eqb_spec outcome_eqb outcome_eqb_spec _ _) H4)].
+Qed.
+
+(* ---------- every registered cleanup runs exactly once ---------- *)
+Section act_ind'.
+  Variable P : act -> Prop.
+  Hypothesis HC : forall t body, Forall P body -> P (ACleanup t body).
+  Hypothesis HO : forall a, (forall t body, a <> ACleanup t body) -> P a.
+  Fixpoint act_ind' (a : act) : P a.
+  Proof.
+    destruct a as [n loc | loc v | mm | mm | t body | x v | fx | h | | r p | e];
+      try (apply HO; intros; discriminate).
+    apply HC. induction body as [|x r IH]; constructor; [apply act_ind' | exact IH].
+  Defined.
+End act_ind'.
+
+(* the functions handed to addCleanup by the statements that get executed, directly or inside a
+   cleanup that runs - in program order *)
+Fixpoint reg_act (a : act) : list (nat * list act) :=
+  match a with
+  | ACleanup t body =>
+      (t, body) ::
+      (fix go (l : list act) : list (nat * list act) :=
+         match l with
+         | [] => []
+         | x :: r => reg_act x ++ match act_raise x with Some _ => [] | None => go r end
+         end) body
+  | _ => []
+  end.
+Fixpoint reg_acts (l : list act) : list (nat * list act) :=
+  match l with
+  | [] => []
+  | x :: r => reg_act x ++ match act_raise x with Some _ => [] | None => reg_acts r end
+  end.
+Definition registered (p : prog) : list (nat * list act) :=
+  reg_acts (snd (p_setup p))
+  ++ (if setup_returns p then reg_acts (snd (p_body p)) ++ reg_acts (snd (p_teardown p)) else []).
+
+(* the functions the cleanup phase calls, in the order it calls them *)
+Definition user_entries (l : list entry) : list (nat * list act) :=
+  flat_map (fun e => match e with EUser t b => [(t, b)] | _ => [] end) l.
+Lemma user_entries_app a b : user_entries (a ++ b) = user_entries a ++ user_entries b.
+Proof. apply flat_map_app. Qed.
+
+Lemma reg_act_cleanup t b : reg_act (ACleanup t b) = (t, b) :: reg_acts b.
+Proof. reflexivity. Qed.
+
+Lemma raising_registers_nothing x e : act_raise x = Some e -> reg_act x = [].
+Proof. destruct x; simpl; try discriminate; reflexivity. Qed.
+
+Lemma pending_perm_list l :
+  Forall (fun a => Permutation (user_entries (act_entries a)) (reg_act a)) l ->
+  Permutation (user_entries (pending l)) (reg_acts l).
+Proof.
+  induction 1 as [|x r Hx Hr IH]; [constructor|]. cbn [pending reg_acts].
+  destruct (act_raise x) as [e|] eqn:E.
+  - rewrite (raising_registers_nothing x e E). constructor.
+  - rewrite user_entries_app. eapply perm_trans; [apply Permutation_app_comm|].
+    apply Permutation_app; assumption.
+Qed.
+
+Lemma act_entries_perm a : Permutation (user_entries (act_entries a)) (reg_act a).
+Proof.
+  induction a as [t body IH | a Ha] using act_ind'.
+  - rewrite act_entries_cleanup, reg_act_cleanup. cbn [user_entries flat_map app]. constructor.
+    apply pending_perm_list. exact IH.
+  - destruct a; try (exfalso; eapply Ha; reflexivity); simpl; try constructor.
+    destruct (fixture_raise fx); constructor.
+Qed.
+
+Lemma pending_perm l : Permutation (user_entries (pending l)) (reg_acts l).
+Proof. apply pending_perm_list. apply Forall_forall. intros a _. apply act_entries_perm. Qed.
+
+Theorem once p : Permutation (user_entries (cleanup_entries p)) (registered p).
+Proof.
+  unfold cleanup_entries, registered. destruct (setup_returns p).
+  - rewrite !user_entries_app.
+    eapply perm_trans; [apply Permutation_app_comm|].
+    eapply perm_trans; [apply Permutation_app_tail, Permutation_app_comm|].
+    rewrite <- app_assoc.
+    apply Permutation_app; [apply pending_perm|].
+    apply Permutation_app; apply pending_perm.
+  - rewrite app_nil_r. apply pending_perm.
+Qed.
+
+(* ---------- the stack discipline ---------- *)
+Lemma pending_app l1 l2 : acts_raise l1 = None -> pending (l1 ++ l2) = pending l2 ++ pending l1.
+Proof.
+  induction l1 as [|x r IH]; simpl; intros H; [now rewrite app_nil_r|].
+  destruct (act_raise x); [discriminate|]. rewrite (IH H), app_assoc. reflexivity.
+Qed.
+Lemma pending_stop l1 x l2 e : acts_raise l1 = None -> act_raise x = Some e -> pending (l1 ++ x :: l2) = pending l1.
+Proof.
+  intros H1 H2. rewrite (pending_app _ _ H1). simpl. now rewrite H2.
+Qed.
+
+(* ---------- restoration, emptiness, re-run ---------- *)
+Theorem run_restores p s0 :
+  exists r s, observe p s0 = (r, s) /\ r_left r = 0 /\ r_attrs r = attrs s0 /\ map shape (r_log r) = expected_log p.
+Proof.
+  destruct (observe_spec p s0) as (r & s & O & L & K & A & _). exists r, s. repeat split; assumption.
+Qed.
+
+Theorem rerun i :
+  let o := model i in
+  map shape (r_log (o_second o)) = map shape (r_log (o_first o))
+  /\ r_outs (o_second o) = r_outs (o_first o)
+  /\ r_attrs (o_second o) = i_attrs i /\ r_attrs (o_first o) = i_attrs i.
+Proof.
+  unfold model.
+  destruct (observe_spec (i_prog i) (init (i_attrs i))) as (r1 & s1 & O1 & L1 & K1 & A1 & U1 & A1' & St1 & F1).
+  rewrite O1.
+  destruct (observe_spec (i_prog i) s1) as (r2 & s2 & O2 & L2 & K2 & A2 & U2 & A2' & St2 & F2).
+  rewrite O2. cbn [o_first o_second]. cbn [attrs force init orb] in *.
+  split; [congruence|]. split; [|split; congruence].
+  rewrite U1, U2, F1. unfold outs_for. now rewrite verdict_rerun.
+Qed.
